@@ -374,6 +374,7 @@ def run_check(prop: PropertyCheck, tier: str, seed: int) -> int:
     pid = prop.id
     rng = random.Random(f"{pid}:{seed}")
     budget = prop.quick_budget if tier == "quick" else prop.thorough_budget
+    prop.tier, prop.seed = tier, seed   # for hooks without a tier argument (static_obligations)
     ties_broken: List[str] = []
 
     # 1. translators
